@@ -28,7 +28,8 @@ for d in docs:
 log = os.environ.get("VERIF_SHIM_LOG")
 if log:
     rec = {"test": os.environ.get("PYTEST_CURRENT_TEST", ""), "findings": findings[:20],
-           "nodes": sum(len(d["nodes"]) for d in docs), "doc": docs if findings else None}
+           "nodes": sum(len(d["nodes"]) for d in docs),
+           "doc": docs if findings or os.environ.get("VERIF_SHIM_KEEP_DOCS") else None}
     name = hashlib.sha1(data).hexdigest()[:12]
     with open(os.path.join(log, f"{os.getpid()}-{name}.json"), "w") as f:
         json.dump(rec, f, default=repr)
